@@ -326,7 +326,7 @@ func checkC15(c *Check) {
 					}
 					return false
 				}
-				if path, f := r.F.Reach(Query{From: r.Entry(), Inclusive: true, Target: func(q Pt) bool { return q == azPt }, Avoid: sets}); f {
+				if path, f := r.F.Reach(Query{From: r.Entry(), Inclusive: true, Target: func(q Pt) bool { return q == azPt }, Avoid: func(q Pt) bool { return q != azPt && sets(q) }}); f {
 					unset = r.F.Describe(path)
 				}
 			}
